@@ -104,6 +104,9 @@ def build_table(vc, meta, unit):
         table.append({'id': base + '/body', 'fn': q, 'kind': 'body', 'tags': list(f.get('body_tags') or ftags),
                       'text': 'body of %s: panic freedom (overflow, bounds, unwrap), callee preconditions, hint assertions, termination' % q,
                       'contracted': True, 'file': f['file'], 'line': f['line']})
+    for (name, tags, text) in getattr(vc, 'corollaries', []):
+        # a verified function of the unit's own prelude (e.g. the history driver): one obligation, discharged iff Verus verifies the function
+        table.append({'id': '%s/%s/corollary' % (unit, name), 'fn': name, 'kind': 'corollary', 'tags': tags, 'text': text, 'explicit': True, 'contracted': True})
     return table
 
 
@@ -146,6 +149,11 @@ def attribute(diag, table, meta, gen_lines):
     if fn is None:
         g = ghost_fn_at(gen_lines, prim[0]['gen_line'])
         detail['ghost_fn'] = g
+        cor = [o for o in table if o['kind'] == 'corollary' and o['fn'] == g]
+        if cor:
+            detail['fn'] = g
+            detail['sub'] = ' '.join(strip_comment(prim[0]['text']).split())[:120]
+            return cor[0]['id'], g, detail
         return None, None, detail
     msg = diag['message']
     byfn = [o for o in table if o['fn'] == fn]
